@@ -593,15 +593,73 @@ def run(ctx, repo, tier):
             verdicts.append("other")
         else:
             verdicts.append("unknown")
-    if len(trs) == 2 and verdicts == ["ok", "ok"]:
+    # centring delegated to a module-level helper:  helper(self.central_molecule, self.moving_molecule)  whose body translates every
+    # molecule it is given by minus that molecule's own centre of mass (centres may be collected first, pairing by zip)
+    helper_ok = None
+    if not trs:
+        for c_ in [n for n in ast.walk(cb.node) if isinstance(n, ast.Call) and isinstance(n.func, ast.Name)]:
+            hf = tw.module.functions.get(c_.func.id)
+            if hf is None:
+                continue
+            htr = [n for n in ast.walk(hf.node) if isinstance(n, ast.Call) and isinstance(n.func, ast.Attribute) and n.func.attr == "translate"]
+            if not htr:
+                continue
+            ctx.analysed(hf)
+            trs = htr
+            passed = {ccb.text(a_) for a_ in c_.args}
+            both = {"self.central_molecule", "self.moving_molecule"} <= passed
+            hcn = Canon(Canon.single_defs(hf.node.body))
+            good = 0
+            for t in htr:
+                a = t.args[0] if t.args else None
+                recv = t.func.value            # X.atoms
+                # enclosing loop  for X, C in zip(S, L)  with L = [Y.atoms.center_of_mass() for Y in S]   or   for X in S: ... translate(-X.atoms.center_of_mass())
+                lp = getattr(t, "_parent", None)
+                while lp is not None and not isinstance(lp, ast.For):
+                    lp = getattr(lp, "_parent", None)
+                atxt = hcn.text(a).replace(" ", "") if a is not None else ""
+                if atxt in (f"-{src(recv)}.center_of_mass()", f"-({src(recv)}.center_of_mass())"):
+                    good += 1
+                    continue
+                if lp is not None and isinstance(lp.target, ast.Tuple) and len(lp.target.elts) == 2 and isinstance(lp.iter, ast.Call) and \
+                        src(lp.iter.func) == "zip" and len(lp.iter.args) == 2:
+                    xv, cv = (e_.id if isinstance(e_, ast.Name) else None for e_ in lp.target.elts)
+                    S_, L_ = lp.iter.args
+                    Le = hcn.expand(L_)
+                    if isinstance(Le, ast.ListComp) and len(Le.generators) == 1 and not Le.generators[0].ifs and \
+                            src(Le.generators[0].iter) == src(S_) and isinstance(Le.generators[0].target, ast.Name):
+                        yv = Le.generators[0].target.id
+                        if src(Le.elt).replace(" ", "") == f"{yv}.atoms.center_of_mass()" and src(recv) == f"{xv}.atoms" and atxt == f"-{cv}":
+                            good += 1
+            helper_ok = both and good == len(htr)
+            break
+    if helper_ok:
+        ctx.ok("PARITY", "C10.writer.centre", "the writer hands both molecules to a helper that translates each molecule it is given by minus that "
+               "molecule's own centre of mass", cb.where)
+    elif helper_ok is False:
+        ctx.inconclusive("PARITY", "C10.writer.centre", "centring is delegated to a helper whose idiom is not recognised", cb.where,
+                         witness=str([src(t) for t in trs]))
+    elif len(trs) == 2 and verdicts == ["ok", "ok"]:
         ctx.ok("PARITY", "C10.writer.centre", "the writer translates each molecule by minus its own centre of mass", cb.where)
     elif "plus" in verdicts or "other" in verdicts:
         ctx.violate("PARITY", "C10.writer.centre", "a molecule is not translated by minus its OWN centre of mass: the precondition 'molecules "
                     "centred' is not established by the writer", cb.where, witness=str([src(t) for t in trs]))
     else:
         ctx.inconclusive("PARITY", "C10.writer.centre", "centring idiom not recognised", cb.where, witness=str([src(t) for t in trs]))
-    ctx.check(len(trs) >= 1, "DOM", "C10.writer.centre_called", "centring happens at construction of the writer", init_w.where,
-              witness="no translate call is reachable from TwoMoleculeWriter.__init__ through its private helpers")
+    if len(trs) >= 1:
+        ctx.ok("DOM", "C10.writer.centre_called", "centring happens at construction of the writer", init_w.where)
+    else:
+        # the reader centres too (center_com, default True): a writer that relies on it is not judged
+        rd = [n for n in ast.walk(cb.node) if isinstance(n, ast.Call) and isinstance(n.func, ast.Name) and n.func.id == "OneMoleculeReader"]
+        off = [n for n in rd for k in n.keywords if k.arg == "center_com" and isinstance(k.value, ast.Constant) and k.value.value is False] + \
+              [n for n in rd if len(n.args) >= 2 and isinstance(n.args[1], ast.Constant) and n.args[1].value is False]
+        if rd and not off:
+            ctx.inconclusive("DOM", "C10.writer.centre_called", "no translate call is reachable from TwoMoleculeWriter.__init__; the molecules are "
+                             "centred only by OneMoleculeReader's own transformation", init_w.where)
+        else:
+            ctx.violate("DOM", "C10.writer.centre_called", "nothing centres the molecules when the writer is constructed: the precondition of the "
+                        "pseudotrajectory (both molecules centred at the origin) is not established", init_w.where,
+                        witness="no translate call is reachable from TwoMoleculeWriter.__init__ through its helpers")
     pw = repo.cls("molgri.io", "PtWriter")
     pinit = pw.methods.get("__init__")
     if pinit is not None and init is not None:
